@@ -27,13 +27,13 @@ claim("C19", "Registry",
       "DESIGN.md §5 C19")
 
 claim("C01", "LeastSquares",
-      "TLA+ spec LeastSquares.tla: exact integer VP/NNLS oracle with orthogonality, KKT, uniqueness and minimality checked by TLC on every enumerated instance; every emitted instance replayed on residual_variable_projection / residual_nnls (C/F order, 2^k-scaled data)",
-      "TLC enumerates all integer instances (A, y) of a bounded lattice (plus a kinetic catalogue of nearly collinear integer columns), proves on each that the exact solution satisfies the optimality certificates the property names, and emits the exact clp and residual; the real functions must reproduce them to 1e-9 relative, also for data scaled by 2^-300..2^300.",
-      "Decides the property on exact lattice instances with condition numbers up to ~1e4; condition numbers 1e4..1e10 are floating-point error analysis and are not decided (DESIGN §6). Trusted: TLC, Fraction division.",
+      "TLA+ spec LeastSquares.tla: exact integer VP/NNLS oracle with orthogonality, KKT, uniqueness and minimality checked by TLC on every enumerated instance; every emitted instance replayed on residual_variable_projection / residual_nnls and on EstimationProvider.calculate_residual (C/F order, float and integer dtypes, 2^k-scaled data, 2^e-scaled columns)",
+      "TLC enumerates all integer instances (A, y) of a bounded lattice (plus a kinetic catalogue of nearly collinear integer columns), proves on each that the exact solution satisfies the optimality certificates the property names, and emits the exact clp and residual; the real functions must reproduce them to 1e-9 relative, also for data scaled by 2^-300..2^300 and for columns scaled by powers of two with a spread of up to 2^33 (condition numbers up to 1e10 with an exact oracle).",
+      "Decides the property on exact lattice instances; ill-conditioning beyond ~1e4 that is not a column scaling is floating-point error analysis and is not decided (DESIGN §6). Trusted: TLC, Fraction division.",
       "DESIGN.md §5 C01")
 
 claim("C09", "ClpLink",
-      "TLA+ spec ClpLink.tla (one action per point / per dataset, nondeterministic ties) model-checked exhaustively by TLC with the property's clauses as invariants; every terminal state emitted; the real alignment code must land in the allowed set (unit level exhaustive, end-to-end sample through real schemes and optimize)",
+      "TLA+ spec ClpLink.tla (one action per point / per dataset, nondeterministic ties) model-checked exhaustively by TLC with the property's clauses as invariants; every terminal state emitted; the real alignment code must land in the allowed set (unit level exhaustive, end-to-end sample through real schemes and optimize); recorded `aligned` events of real providers (random driver beyond the bounds, repository tests) accepted by ClpLinkTrace.tla",
       "Exhaustive exploration of all axis sets of 2 datasets (3 in thorough) with up to 3-4 points on a half-step grid, tolerances 0/below/at/above the spacing, all three methods; the implementation's assignment, stacked data/indices/weights, clp sharing in results and AlignDatasetError are compared with the specification's allowed outcomes.",
       "Ties may be resolved either way (D3). Axes strictly increasing. Unit level sets the provider's axes directly. Larger axes only in thorough/simulate. Trusted: TLC, Json module.",
       "DESIGN.md §5 C09")
@@ -63,7 +63,7 @@ claim("C14", "Objective",
 
 claim("C08", "Intervals",
       "TLA+ spec Intervals.tla: Must/May envelope of interval semantics enumerated exhaustively by TLC (axis x interval pairs on a half-step grid incl. infinite/reversed/degenerate/outside, interval lists) with closedness, union, complement, order-insensitivity, infinite-bound and monotonicity invariants; every emitted case replayed on applies()/get_axis_slice_from_interval/_get_area (Must <= Aff <= May, implementation monotonicity over all interval pairs) and a sample end to end through optimize()",
-      "Exhaustive over the bounded grid at unit level for zero / only / relation / weight slice / penalty area; end-to-end sample checks the zero pattern of constrained clps, related clps, number_of_clps, reported weights and the equal-area penalty value in linked and unlinked groups; weight precedence (dataset weight wins, warning).",
+      "Exhaustive over the bounded grid at unit level for zero / only / relation / weight slice / penalty area; end-to-end sample checks the zero pattern of constrained clps, related clps, number_of_clps, reported weights and the equal-area penalty value in linked and unlinked groups; applied weight = reported weight and solved reduction = selected reduction by normal-equation certificates; weight precedence (dataset weight wins, warning); recorded `prepared` / `stacked` events of real matrix providers accepted block by block by ReduceTrace.tla (Objective!ReduceLabels).",
       "D2: any affected set between Must and May is accepted for slices/areas; multiplicity of overlapping penalty intervals is not judged. Trusted: TLC, Json module.",
       "DESIGN.md §5 C08")
 
